@@ -9,7 +9,7 @@ PROP = []
 def check(run):
     ctlfam.model(run, INV, PROP)
     traces = ctlfam.drive_and_validate(run, 'C01', INV, PROP, n_hist=run.pick(480, 8000), hist_len=run.pick(40, 60),
-                                       replay_num=run.pick(150, 1500))
+                                       replay_num=run.pick(150, 1500), trace_only=['C01_ConfiguredLimits'])
     cycles = ctlfam.count_events(traces, lambda ln: '"ev":"Cycle"' in ln)
     oob = ctlfam.count_events(traces, lambda ln: '"ev":"Cycle"' in ln and ('"cv":-' in ln or '"cv":256' in ln or '"cv":1000' in ln or '"cv":1073741824' in ln))
     return run.finish('model_checking',
